@@ -477,7 +477,10 @@ def call(f, args=(), kws=()):
     # list(<list literal>) / tuple(<tuple literal>)
     if f == G('list') and nokw and len(args) == 1 and args[0][0] == 'list':
         return args[0]
-    # abs handled generically
+    # max / min of positional arguments are commutative
+    if f in (G('max'), G('min'), G('np.maximum'), G('np.minimum')) and nokw and len(args) >= 2 \
+            and not any(a[0] == 'star' for a in args):
+        args = tuple(sorted(args, key=_k))
     return ('call', f, args, kws)
 
 
